@@ -96,13 +96,13 @@ func c17(c *core.Check) {
 	c17DeadArithmetic(c)
 	c.Assume = []string{"float32/float64 conversions are treated as identity", "the group laws follow from the laws of 2x3 affine matrices once each routine equals its specification matrix (mathematics, not re-proved)"}
 
-	r1 := c.Rule("R1", "matrix package: Translation, Scaling, Rotation, Skew, Identity, New, Determinant, mult/Mul/Mul3, LeftMultBy, RightMultBy, Apply, Invert and the in-place Translate/Scale/Rotate/Skew have the specification normal forms", 16)
+	r1 := c.Rule("R1", "matrix package: Translation, Scaling, Rotation, Skew, Identity, New, Determinant, mult/Mul/Mul3, LeftMultBy, RightMultBy, Apply, Invert and the in-place Translate/Scale/Rotate/Skew have the specification normal forms", 15)
 	c17Matrix(c, r1)
 
 	r2 := c.Rule("R2", "CSS plumbing: names emitted by validation.transformFunction are the cases of document.getMatrix; the largest argument index each case reads is below the length of the Dimensions the validator emits for that name; single-axis forms put their argument on the right axis; getMatrix passes args[i] as i-th argument, composes with RightMultBy in list order, starts from the translation by the origin and ends with the translation by its negation", 29)
 	c17CSS(c, r2)
 
-	r3 := c.Rule("R3", "SVG plumbing: parseTransform's kind/arity table is SVG 1.1 §7.6 (rotate 1|3, translate 1|2, skewX 1, skewY 1, scale 1|2, matrix 6); transform.applyTo, folded per kind, right-multiplies by the specification matrix with degrees converted to radians", 14)
+	r3 := c.Rule("R3", "SVG plumbing: parseTransform's kind/arity table is SVG 1.1 §7.6 (rotate 1|3, translate 1|2, skewX 1, skewY 1, scale 1|2, matrix 6); transform.applyTo, folded per kind, right-multiplies by the specification matrix with degrees converted to radians", 13)
 	c17SVG(c, r3)
 
 	r4 := c.Rule("R4", "validation.ANGLETORADIANS = {rad:1, turn:2π, deg:π/180, grad:π/200} and AngleUnits names map to the same-named units", 10)
@@ -914,7 +914,7 @@ func c17Angles(c *core.Check, r *core.Rule) {
 // c17Determinant: invertibility is `determinant != 0`; a reflection has a negative determinant and is invertible.
 func c17Determinant(c *core.Check) {
 	p := c.Prog
-	r := c.Rule("R5", "every test of a matrix determinant in the module compares it with 0 by == or != (a transform with a negative determinant, a reflection, is invertible and must be applied)", 3)
+	r := c.Rule("R5", "every test of a matrix determinant in the module compares it with 0 by == or != (a transform with a negative determinant, a reflection, is invertible and must be applied)", 1)
 	n := 0
 	for _, fn := range p.ModFuncs {
 		core.Instrs(fn, func(in ssa.Instruction) {
@@ -978,7 +978,7 @@ func c17Computed(c *core.Check) {
 // `angle != 0`, the Python truthiness of the original, rejects rotate(0deg) and with it the whole declaration).
 func c17ZeroAngles(c *core.Check) {
 	p := c.Prog
-	r := c.Rule("R7", "every angle is accepted: in the validator of transform functions no condition compares the value returned by getAngle with a constant — acceptance depends only on whether the argument is an angle (rotate(0deg), skewX(0deg) are valid; refusing them drops the whole transform declaration)", 3)
+	r := c.Rule("R7", "every angle is accepted: in the validator of transform functions no condition compares the value returned by getAngle with a constant — acceptance depends only on whether the argument is an angle (rotate(0deg), skewX(0deg) are valid; refusing them drops the whole transform declaration)", 1)
 	ga := p.Fn("css/validation", "getAngle")
 	if ga == nil {
 		r.Anchor("css/validation.getAngle")
